@@ -62,7 +62,7 @@ static ALLOC: counting::Counting = counting::Counting;
 
 // ------------------------------------------------------------------ templates
 
-pub const KINDS: [&str; 20] = [
+pub const KINDS: [&str; 21] = [
     "pairs", "vectors", "strings", "closures", "continuations", "eval", "toplevel", "symbols",
     "bignums", "mixed", "errors", "syntaxerrors", "unbound", "globalrefs",
     // generated code whose LEXICAL variable names are fresh every iteration (handed to eval and dropped)
@@ -83,6 +83,9 @@ pub const KINDS: [&str; 20] = [
     // builtins that allocate HUNDREDS of cells per instruction (vector->list, string->list, append, reverse): the
     // free list runs out long before an instruction-count based collection point comes (seed C12e-2)
     "bulk",
+    // forms the compiler REJECTS (after allocating their constants) submitted while another evaluation is suspended
+    // between two slices: every rejected form must still be a collection point (seed C07f-2)
+    "rejected",
 ];
 
 const BIG: &str = "(* 10000000000 10000000000)";
@@ -90,7 +93,7 @@ const BIG: &str = "(* 10000000000 10000000000)";
 /// `(mk j)`: one object of the kind, kept in the live list
 fn mk_body(kind: &str) -> String {
     match kind {
-        "pairs" | "sliced" | "abandoned" | "bulk" => "(list j (cons j j))".into(),
+        "pairs" | "sliced" | "abandoned" | "bulk" | "rejected" => "(list j (cons j j))".into(),
         "vectors" => "(make-vector 4 j)".into(),
         "strings" => "(string-append \"live\" (number->string j))".into(),
         "closures" | "toplevel" | "errors" | "syntaxerrors" | "unbound" | "globalrefs" | "evallex" | "shorterrors" | "contchain" => "(let ((a j) (b (* j 2))) (lambda (x) (+ x a b)))".into(),
@@ -117,7 +120,7 @@ fn mk_body(kind: &str) -> String {
 /// `(garbage i)`: creates short-lived objects of the kind and drops them
 fn garbage_body(kind: &str) -> String {
     match kind {
-        "pairs" | "sliced" | "abandoned" => "(car (list i (cons i i) (list i i i) (append (list i) (list i))))".into(),
+        "pairs" | "sliced" | "abandoned" | "rejected" => "(car (list i (cons i i) (list i i i) (append (list i) (list i))))".into(),
         // no Scheme-level loop over the elements (length, map …): that would spend 25 instructions per cell
         "bulk" => "(begin (vector->list (make-vector 200 i)) (string->list (make-string 120 #\\a)) (vector->list (make-vector 60 i)) i)".into(),
         "evallex" => "((lambda (v) (procedure? (eval (list 'lambda (list v) (list 'lambda '() v))))) (string->symbol (string-append \"lexvar\" (number->string i))))".into(),
@@ -307,6 +310,29 @@ fn run_template(kind: &str, live: usize, n: usize) -> Result<RunResult, String> 
                     if vm.eval_text(&f).is_err() {
                         failed += 1;
                     }
+                    if i % 4096 == 0 {
+                        drain(&mut vm, &mut points);
+                    }
+                }
+            }
+            "rejected" => {
+                if vm.eval_text("(define (sink d acc) (if (= d 0) (length acc) (+ 1 (sink (- d 1) (cons (list d d) acc)))))").is_err() {
+                    panic!("rejected: setup failed");
+                }
+                let (deep, _) = marwood::parse::parse_text("(sink 100000 '())").unwrap();
+                vm.prepare_eval(&deep).unwrap();
+                match vm.run_count(2000) {
+                    Ok(None) => {}
+                    _ => panic!("rejected: the deep evaluation ended early"),
+                }
+                for i in 0..n {
+                    let consts: Vec<String> = (0..24).map(|j| (i * 31 + j).to_string()).collect();
+                    let text = format!("(list '({}) \"rejected {}\" (if))", consts.join(" "), i);
+                    let (cell, _) = marwood::parse::parse_text(&text).unwrap();
+                    if vm.prepare_eval(&cell).is_ok() {
+                        panic!("rejected: the form was accepted");
+                    }
+                    failed += 1;
                     if i % 4096 == 0 {
                         drain(&mut vm, &mut points);
                     }
